@@ -431,6 +431,26 @@ def check_test_and_set(prog, res, rule, body, an, sy, loop, head):
         else:
             res.violate(rule, fn, "skip:%s" % "|".join(idx)[:120], "after the duplicate test passes, the slot can stay unset (a path reaches the next iteration without the store): whether a later duplicate is rejected then depends on bank order", body.where(markers[0][1]))
         # all other stores with this index must be dominated by the marker's test (same index by construction)
+    # (3) keyed collections filled in the loop: `map.insert(k, v)` keeps the LAST value of a key, so which bank survives
+    # depends on bank order — unless the returned previous value is tested (duplicate => Err)
+    import re as _re
+    for bb_, t_ in body.calls():
+        if bb_ not in loop:
+            continue
+        s_ = short(cname(t_))
+        if _re.search(r"(HashMap|BTreeMap|IndexMap|HashSet|BTreeSet|IndexSet)(::<[^>]*>)?::insert$", s_):
+            d_ = t_.get("dest")
+            tested = False
+            if d_ is not None and not d_["pr"]:
+                for b2 in body.reachable():
+                    t2 = body.blocks[b2]["t"]
+                    if t2["k"] == "switch":
+                        for y in walk(an.terms.operand(t2["d"])):
+                            if y[0] == "call" and y[3] == bb_:
+                                tested = True
+            if not tested:
+                res.oblige(False)
+                res.violate(rule, fn, "insert:%s" % s_[:60], "a keyed collection is filled with `insert` in the bank loop and the replaced value is not tested: for a repeated key the last bank wins, so the result depends on bank order", body.where(bb_))
     if found == 0:
         raise AnchorMissing("no accumulator found in the bank loop of %s" % fn)
 
